@@ -32,7 +32,9 @@ n = len(rows)
 det_q = sum(1 for r in rows if '| DETECTED' in r.split('|')[4] or 'DETECTED' in r.split('|')[4])
 s = open(os.path.join(V, 'DESIGN.md')).read()
 a = s.index('### 0.4 Seeded changes')
-b = s.index('---------------------------------------------------------------------------', a)
+import re as _re
+_m = _re.search(r'^(### 0\.[5-9]|-{60,})', s[a + 10:], _re.M)   # the table section ends at the next 0.x heading or the rule
+b = a + 10 + _m.start()
 body = '### 0.4 Seeded changes\n\n' + '\n'.join(tbl) + '\n\nSEEDNOTES\n\n'
 old_notes = re.search(r'<!-- seednotes -->.*?<!-- /seednotes -->', s[a:b], re.S)
 body = body.replace('SEEDNOTES', old_notes.group(0) if old_notes else '<!-- seednotes -->\n<!-- /seednotes -->')
